@@ -202,13 +202,17 @@ fn signature_map(descs: &[SigDesc]) -> (ExternSignatureMap, Sexp) {
             vec![PragmaArgument::Identifier(d.name.clone())],
             Some(text.clone()),
         )));
+        // The facts sent to the model are the GENERATOR's (independent of the implementation's parser);
+        // what the implementation parses back must say the same, otherwise the case is undecodable (= alarm).
         let back = ExternSignature::from_str(&text).expect("signature parses");
+        let same = back.return_type().is_some() == d.ret
+            && back.parameters().iter().map(|p| p.mutable()).collect::<Vec<_>>() == d.muts;
         printed.push(tagged(
-            "sig",
+            if same { "sig" } else { "sig-parse-differs" },
             vec![
                 st(d.name.clone()),
-                atom(if back.return_type().is_some() { "t" } else { "f" }),
-                list(back.parameters().iter().map(|p| atom(if p.mutable() { "t" } else { "f" })).collect()),
+                atom(if d.ret { "t" } else { "f" }),
+                list(d.muts.iter().map(|m| atom(if *m { "t" } else { "f" })).collect()),
             ],
         ));
     }
@@ -223,15 +227,41 @@ fn sorted(set: &std::collections::HashSet<String>) -> Sexp {
     list(v.into_iter().map(|s| st(s.clone())).collect())
 }
 
+/// A handler that overrides nothing: the trait's default `memory_accesses` must delegate to `DefaultHandler`.
+struct PlainHandler;
+impl InstructionHandler for PlainHandler {}
+
+fn result_sexp(r: Result<quil_rs::program::MemoryAccesses, MemoryAccessesError>) -> Sexp {
+    match r {
+        Ok(a) => tagged("ok", vec![sorted(&a.reads), sorted(&a.writes), sorted(&a.captures)]),
+        Err(e) => {
+            // every returned error is formatted (a panic in Display/Debug/source is a crash of the case)
+            let _ = format!("{e} {e:#} {e:?} {:?}", std::error::Error::source(&e).map(|s| s.to_string()));
+            match e {
+                MemoryAccessesError::CallResolution(CallResolutionError::NoMatchingExternInstruction(_)) => {
+                    tagged("err", vec![atom("nomatch")])
+                }
+                _ => tagged("err", vec![atom("other")]),
+            }
+        }
+    }
+}
+
 fn run_case(ctx: &mut Ctx, sigs: &(ExternSignatureMap, Sexp), i: &Instruction) {
     let input = tagged("ma", vec![sigs.1.clone(), proj(i)]);
-    ctx.case(input, || match DefaultHandler.memory_accesses(&sigs.0, i) {
-        Ok(a) => tagged("ok", vec![sorted(&a.reads), sorted(&a.writes), sorted(&a.captures)]),
-        Err(MemoryAccessesError::CallResolution(CallResolutionError::NoMatchingExternInstruction(_))) => {
-            tagged("err", vec![atom("nomatch")])
+    ctx.case(input, || {
+        let a = result_sexp(DefaultHandler.memory_accesses(&sigs.0, i));
+        let b = result_sexp(PlainHandler.memory_accesses(&sigs.0, i));
+        if a == b {
+            a
+        } else {
+            tagged("handler-mismatch", vec![a, b])
         }
-        Err(_) => tagged("err", vec![atom("other")]),
     });
+}
+
+fn acc_sexp(a: &quil_rs::program::MemoryAccesses) -> Vec<Sexp> {
+    vec![sorted(&a.reads), sorted(&a.writes), sorted(&a.captures)]
 }
 
 // ------------------------------------------------------------------ building blocks
@@ -593,10 +623,10 @@ fn run(ctx: &mut Ctx) {
             run_case(ctx, &no_sigs, &i);
         }
     }
-    // calls: every signature shape with ≤ 2 (quick) / ≤ 3 (thorough) parameters × every argument list of
-    // length ≤ 3 (quick) / ≤ 4 (thorough) over {identifier a, a[1], b[0], immediate}; plus an unknown name
+    // calls: every signature shape with ≤ 3 parameters × every argument list of
+    // length ≤ 4 (quick) / ≤ 5 (thorough) over {identifier a, a[1], b[0], immediate}; plus an unknown name
     {
-        let (max_params, max_args) = if ctx.quick() { (2, 3) } else { (3, 4) };
+        let (max_params, max_args) = if ctx.quick() { (3, 4) } else { (3, 5) };
         let arg_lists = lists(&call_args_alphabet(), max_args);
         for (ret, muts) in signature_shapes(max_params) {
             let sigs = signature_map(&[SigDesc { name: "f".to_string(), ret, muts }]);
@@ -623,9 +653,153 @@ fn run(ctx: &mut Ctx) {
         }
     }
 
+    // ---- 2b. `MemoryAccesses::union` driven directly: every pair of access triples over {a,b} (64 × 64),
+    // and left folds of three
+    {
+        let sets: Vec<Vec<&str>> = vec![vec![], vec!["a"], vec!["b"], vec!["a", "b"]];
+        let mut triples = vec![];
+        for r in &sets {
+            for w in &sets {
+                for c in &sets {
+                    triples.push(quil_rs::program::MemoryAccesses {
+                        reads: r.iter().map(|s| s.to_string()).collect(),
+                        writes: w.iter().map(|s| s.to_string()).collect(),
+                        captures: c.iter().map(|s| s.to_string()).collect(),
+                    });
+                }
+            }
+        }
+        for x in &triples {
+            for y in &triples {
+                let input = tagged("union", vec![list(acc_sexp(x)), list(acc_sexp(y))]);
+                ctx.case(input, || tagged("acc", acc_sexp(&x.clone().union(y.clone()))));
+            }
+        }
+    }
+
+    // ---- 2c. definitions nested three deep (all 27 chains of the three definition kinds) around every pool
+    // instruction, alone and between a capture-only and a read-only neighbour; bodies of length 3 over a
+    // reduced pool in every order (captures before / after reads, writes in between)
+    {
+        let pool = body_pool();
+        let wrap = |kind: usize, body: Vec<Instruction>| match kind {
+            0 => defcal(&[], body),
+            1 => defcalm(body),
+            _ => defcircuit(body),
+        };
+        let cap = Instruction::Measurement(Measurement { name: None, qubit: Qubit::Fixed(0), target: Some(m("c")) });
+        let rd = Instruction::JumpWhen(JumpWhen { target: Target::Fixed("l".to_string()), condition: m("a") });
+        for k1 in 0..3 {
+            for k2 in 0..3 {
+                for k3 in 0..3 {
+                    for (n, leaf) in pool.iter().enumerate() {
+                        let inner = wrap(k3, vec![leaf.clone()]);
+                        run_case(ctx, &fg_sigs, &wrap(k1, vec![wrap(k2, vec![inner.clone()])]));
+                        if n % 3 == (k1 + k2 + k3) % 3 {
+                            run_case(ctx, &fg_sigs, &wrap(k1, vec![cap.clone(), wrap(k2, vec![rd.clone(), inner.clone(), cap.clone()]), rd.clone()]));
+                            run_case(ctx, &no_sigs, &wrap(k1, vec![wrap(k2, vec![inner.clone()]), cap.clone()]));
+                        }
+                    }
+                }
+            }
+        }
+        let small: Vec<Instruction> = vec![
+            cap.clone(),
+            rd.clone(),
+            Instruction::Move(Move { destination: m("b"), source: ArithmeticOperand::LiteralInteger(1) }),
+            Instruction::RawCapture(RawCapture { blocking: true, frame: fr(), duration: expr::addr("b", 0), memory_reference: m("a") }),
+            Instruction::Halt(),
+            call("f", vec![UnresolvedCallArgument::Identifier("c".to_string()), UnresolvedCallArgument::MemoryReference(m("a"))]),
+        ];
+        for body in lists(&small, 3).into_iter().filter(|b| b.len() == 3) {
+            run_case(ctx, &fg_sigs, &defcalm(body.clone()));
+            run_case(ctx, &fg_sigs, &defcal(&[], vec![defcircuit(body)]));
+        }
+    }
+
+    // ---- 2d. special shapes: PRAGMA variants, empty / wide collections, API-only shapes, special region names,
+    // signature maps built by other routes
+    {
+        let pragma = |name: &str, args: Vec<PragmaArgument>, data: Option<&str>| {
+            Instruction::Pragma(Pragma::new(name.to_string(), args, data.map(|s| s.to_string())))
+        };
+        let id = |s: &str| PragmaArgument::Identifier(s.to_string());
+        let mut shapes = vec![
+            pragma("NOTE", vec![], None),
+            pragma("NOTE", vec![id("a"), id("b"), PragmaArgument::Integer(3)], Some("a[0] b[1]")),
+            pragma("EXTERN", vec![id("f")], Some("INTEGER (p0 : mut INTEGER)")),
+            pragma("EXTERN", vec![id("a"), id("b")], Some("(p0 : INTEGER)")),
+            pragma("EXTERN", vec![], None),
+            pragma("extern", vec![id("f")], Some("a")),
+            pragma("LOAD-MEMORY", vec![id("a")], Some("b")),
+            // an empty sequence body cannot be built by `try_new` or the parser: cfg hook of C20
+            Instruction::GateDefinition(GateDefinition {
+                name: "emptyseq".to_string(),
+                parameters: vec![],
+                specification: GateSpecification::Sequence(quil_rs::verif_hooks::c20::def_gate_sequence_unchecked(vec![], vec![])),
+            }),
+            defgate_matrix(vec![]),
+            defgate_matrix(vec![vec![], vec![]]),
+            defgate_pauli(&[]),
+            defframe(&[]),
+            defcal(&[], vec![]),
+            defcircuit(vec![defcalm(vec![]), defcal(&[], vec![defcircuit(vec![])])]),
+            // a capture reading its own target, an exchange with itself, a load from its destination
+            Instruction::Capture(Capture { blocking: true, frame: fr(), memory_reference: m("a"), waveform: wfi(&[expr::addr("a", 1)]) }),
+            Instruction::RawCapture(RawCapture { blocking: false, frame: fr(), duration: expr::addr("c", 0), memory_reference: m("c") }),
+            Instruction::Exchange(Exchange { left: m("a"), right: m1("a") }),
+            Instruction::Load(Load { destination: m("a"), source: "a".to_string(), offset: m("a") }),
+            Instruction::Store(Store { destination: "b".to_string(), offset: m("b"), source: ArithmeticOperand::MemoryReference(m("b")) }),
+            Instruction::Measurement(Measurement { name: Some("named".to_string()), qubit: Qubit::Fixed(0), target: Some(m("a")) }),
+            Instruction::Measurement(Measurement { name: Some("named".to_string()), qubit: Qubit::Variable("q".to_string()), target: None }),
+            // region names that differ only in case, the empty name, keyword-like names, boundary indices
+            Instruction::Move(Move { destination: MemoryReference { name: "A".to_string(), index: u64::MAX }, source: ArithmeticOperand::MemoryReference(m("a")) }),
+            Instruction::Arithmetic(Arithmetic { operator: ArithmeticOperator::Add, destination: m(""), source: ArithmeticOperand::MemoryReference(m("pi")) }),
+            Instruction::Exchange(Exchange { left: m("RO"), right: m("ro") }),
+            gate_with(&[expr::infix(expr::addr("A", 0), InfixOperator::Plus, expr::addr("a", 1u64 << 63))]),
+            call("f", vec![UnresolvedCallArgument::Identifier("".to_string()), UnresolvedCallArgument::Identifier("A".to_string())]),
+        ];
+        // more than 32 (and more than 64) elements wherever a collection is walked
+        let many: Vec<Expression> = (0..70).map(|k| expr::addr(&format!("r{k}"), 0)).collect();
+        shapes.push(gate_with(&many));
+        shapes.push(Instruction::Pulse(Pulse { blocking: true, frame: fr(), waveform: wfi(&many) }));
+        shapes.push(defgate_sequence(many.iter().map(|e| vec![e.clone()]).collect()));
+        shapes.push(defcircuit(
+            (0..70).map(|k| Instruction::Move(Move { destination: m(&format!("w{k}")), source: ArithmeticOperand::MemoryReference(m(&format!("r{k}"))) })).collect(),
+        ));
+        shapes.push(call("g", (0..70).map(|k| UnresolvedCallArgument::Identifier(format!("r{k}"))).collect()));
+        let mut deep = expr::addr("deep", 0);
+        for k in 0..200 {
+            deep = if k % 2 == 0 {
+                expr::infix(expr::real(1.0), InfixOperator::Star, deep)
+            } else {
+                expr::infix(deep, InfixOperator::Minus, expr::addr(if k % 3 == 0 { "x" } else { "y" }, 0))
+            };
+        }
+        shapes.push(Instruction::Delay(Delay { duration: deep, frame_names: vec![], qubits: vec![] }));
+        // the same signatures through other routes: the derived Default (empty map), and a parsed program text
+        let default_map = (ExternSignatureMap::default(), list(vec![]));
+        let parsed = Program::from_str(
+            "PRAGMA EXTERN f \"INTEGER (p0 : INTEGER)\"\nPRAGMA EXTERN g \"(p0 : mut REAL[], p1 : BIT[3])\"\n",
+        )
+        .expect("extern text parses");
+        let parsed_map = (parsed.try_extern_signature_map_from_pragma_map().expect("map"), fg_sigs.1.clone());
+        for i in &shapes {
+            run_case(ctx, &fg_sigs, i);
+            run_case(ctx, &default_map, i);
+            run_case(ctx, &parsed_map, i);
+        }
+        for i in body_pool().iter().chain(classical_forms().iter().step_by(7)) {
+            run_case(ctx, &parsed_map, i);
+            run_case(ctx, &default_map, i);
+        }
+    }
+
     // ---- 3. seeded random: all 40 variants in turn, nested bodies up to depth 2, random signature maps
     let mut rng = ctx.rng(27);
-    let alpha = Alpha::small();
+    let mut alpha = Alpha::small();
+    alpha.regions.push("A".to_string());
+    alpha.regions.push("".to_string());
     let n_random = if ctx.quick() { 20_000 } else { 600_000 };
     let mut sigs = signature_map(&[]);
     for k in 0..n_random {
